@@ -115,7 +115,7 @@ def _range_job(run, exe, base, a, b, crashes):
             ev = {"i": idx, "cls": info["cls"], "hex": info["hex"], "len": info["len"], "b0": info["b0"],
                   "out": kind, "out2": kind, "h1": 0, "h2": 0, "disp": "none", "dbg": "none",
                   "fb_out": kind, "fb_out2": kind, "fb_h1": 0, "fb_h2": 0, "fb_used": -1,
-                  "fb_disp": "none", "fb_dbg": "none"}
+                  "fb_disp": "none", "fb_dbg": "none", "at": "", "ptxt": kind}
             core.write_ndjson(os.path.join(syn, "c01.ndjson"), [ev])
             for n in ("c07.ndjson", "c08.ndjson"):
                 open(os.path.join(syn, n), "w").close()
